@@ -171,7 +171,7 @@ fn gpiece() -> BoxedStrategy<String> {
     });
     prop_oneof![
         3 => select(PIECES).prop_map(str::to_string),
-        1 => select(&["%2e%2E", "%2E.", "..%2e", "%2e%2e%2e", "%2f%2e%2e", "%2e%2f", "a%2F..", "%00", "%5c..", "%2E%2F%2e"][..]).prop_map(str::to_string),
+        1 => select(&["%2e%2E", "%2E.", "..%2e", "%2e%2e%2e", "%2f%2e%2e", "%2e%2f", "a%2F..", "%00", "%5c..", "%2E%2F%2e", "a%F0%80%80%AFb", "%C0%AF", "x%E0%80%AFy", "..%F0%80%80%AF..", "%F0%80%80%AE%F0%80%80%AE", "%C0%AE%C0%AE", "%E2%82x%AC"][..]).prop_map(str::to_string),
         4 => proptest::collection::vec(unit, 1..=4).prop_map(|v| v.concat()),
         // ordinary words with a dot in them, and long pieces (beyond 23 / 64 bytes), plain or with an
         // escape somewhere inside
